@@ -1,17 +1,18 @@
-package main
-
-// Subcommand "replicator": executes TLC-generated behaviours of specs/Crdt/Replicator.tla on REAL
+// Command crdtrepl (group crdt, property C41; a binary of its own so that the C38-C40 driver does not link
+// package actor) executes TLC-generated behaviours of specs/Crdt/Replicator.tla on REAL
 // replicator actors (actor/replicator.go), one per in-process actor system (no cluster). What a
 // replicator publishes to the CRDT topic is captured by a collector actor subscribed to the real
 // TopicActor of its system; the driver delivers the captured protobuf messages to the other
 // replicators in the order TLC chose. After every step the public Get of every key on every
 // replica and a projection of store / tombstones / versions are recorded (C41).
 //
-//	crdt replicator <behaviours.ndjson> <trace.ndjson>
+//	crdtrepl <behaviours.ndjson> <trace.ndjson>
+package main
 
 import (
 	"context"
 	"fmt"
+	"os"
 	"sync"
 	"time"
 
@@ -160,9 +161,27 @@ func (d *rdriver) describe(id int, m any, by string) obj {
 	return o
 }
 
-func runReplicator(args []string) {
+type obj = map[string]any
+
+var nodes = []string{"n1", "n2", "n3"}
+
+func fail(a ...any) {
+	fmt.Fprintln(os.Stderr, a...)
+	os.Exit(2)
+}
+
+func u64map(m map[string]uint64) obj {
+	o := obj{}
+	for k, v := range m {
+		o[k] = v
+	}
+	return o
+}
+
+func main() {
+	args := os.Args[1:]
 	if len(args) != 2 {
-		fail("usage: crdt replicator <behaviours.ndjson> <trace.ndjson>")
+		fail("usage: crdtrepl <behaviours.ndjson> <trace.ndjson>")
 	}
 	behaviours, err := vtrace.ReadLines[rbehaviour](args[0])
 	if err != nil {
